@@ -956,6 +956,13 @@ def desugar_modern_syntax(tree: ast.Module) -> int:
                 return None, ([ast.Assign(targets=[ast.Name(id=p.name, ctx=ast.Store())], value=copy.deepcopy(subj))] if p.name else [])
             t, b = pat_test(p.pattern, subj)
             return t, b + ([ast.Assign(targets=[ast.Name(id=p.name, ctx=ast.Store())], value=copy.deepcopy(subj))] if p.name else [])
+        if isinstance(p, ast.MatchSequence) and all(isinstance(q, ast.MatchAs) and q.pattern is None for q in p.patterns):
+            # [] / [x] / [x, _]: a sequence of exactly that length; the names are bound to its elements
+            t = ast.Compare(left=ast.Call(func=ast.Name(id='len', ctx=ast.Load()), args=[copy.deepcopy(subj)], keywords=[]), ops=[ast.Eq()],
+                            comparators=[ast.Constant(value=len(p.patterns))])
+            b = [ast.Assign(targets=[ast.Name(id=q.name, ctx=ast.Store())], value=ast.Subscript(value=copy.deepcopy(subj), slice=ast.Constant(value=i), ctx=ast.Load()))
+                 for i, q in enumerate(p.patterns) if q.name]
+            return t, b
         if isinstance(p, ast.MatchClass) and not p.patterns and not p.kwd_patterns:
             return ast.Call(func=ast.Name(id='isinstance', ctx=ast.Load()), args=[copy.deepcopy(subj), p.cls], keywords=[]), []
         raise ValueError
@@ -1012,9 +1019,34 @@ def desugar_modern_syntax(tree: ast.Module) -> int:
             setattr(st, fld, visit(e))
         return pre
 
+    def prod_loop(st):
+        """X = prod(E for v in S if C)  ->  X = 1; for v in S: if C: X *= E   (math.prod over a single generator)"""
+        if not (isinstance(st, ast.Assign) and len(st.targets) == 1 and isinstance(st.targets[0], ast.Name) and isinstance(st.value, ast.Call)):
+            return None
+        c = st.value
+        fn = c.func.id if isinstance(c.func, ast.Name) else c.func.attr if isinstance(c.func, ast.Attribute) else ''
+        if fn != 'prod' or len(c.args) != 1 or c.keywords or not isinstance(c.args[0], (ast.GeneratorExp, ast.ListComp)) or len(c.args[0].generators) != 1:
+            return None
+        g = c.args[0].generators[0]
+        X = st.targets[0].id
+        body = [ast.AugAssign(target=ast.Name(id=X, ctx=ast.Store()), op=ast.Mult(), value=c.args[0].elt)]
+        for cond in reversed(g.ifs):
+            body = [ast.If(test=cond, body=body, orelse=[])]
+        return [ast.Assign(targets=[ast.Name(id=X, ctx=ast.Store())], value=ast.Constant(value=1)),
+                ast.For(target=g.target, iter=g.iter, body=body, orelse=[])]
+
     def block(stmts):
         out = []
         for st in stmts:
+            pl = prod_loop(st)
+            if pl is not None:
+                n_rw[0] += 1
+                for x in pl:
+                    for y in ast.walk(x):
+                        if isinstance(y, (ast.stmt, ast.expr)) and not hasattr(y, 'lineno'):
+                            ast.copy_location(y, st)
+                out += pl
+                continue
             for fld in ('body', 'orelse', 'finalbody'):
                 b = getattr(st, fld, None)
                 if isinstance(b, list) and b and isinstance(b[0], ast.stmt):
@@ -1044,7 +1076,7 @@ def desugar_modern_syntax(tree: ast.Module) -> int:
                     out += pre
             out.append(st)
         return out
-    has = any(isinstance(x, (ast.Match, ast.NamedExpr)) for x in ast.walk(tree))
+    has = any(isinstance(x, (ast.Match, ast.NamedExpr)) or (isinstance(x, ast.Call) and (getattr(x.func, 'id', None) == 'prod' or getattr(x.func, 'attr', None) == 'prod')) for x in ast.walk(tree))
     if not has:
         return 0
     tree.body = block(tree.body)
